@@ -126,6 +126,21 @@ def case_int(n: int) -> dict:
             f["C19:int-decode-differs-from-reference"] = f"base64_to_int({rb.int_to_b64(n)!r}) != {n}"
     except Exception as e:
         f["C19:int-decode-raises"] = f"base64_to_int({rb.int_to_b64(n)!r}) raised {type(e).__name__}"
+    # the integer decoder is the same strict base64url decoder: a foreign character anywhere in the text is refused
+    good = rb.int_to_b64(n)
+    pos = n % (len(good) + 1)
+    for junk in (" ", "\n", "+", "/", "!", ".", "*", "=", "\t", "é"):
+        bad = good[:pos] + junk + good[pos:]
+        if junk == "=" and pos == len(good):
+            continue      # trailing padding is tolerated by the statement
+        try:
+            r = base64_to_int(bad)
+        except ValueError:
+            continue
+        except Exception as e:
+            f["C19:int-decode-invalid-wrong-exception"] = f"base64_to_int({bad!r}) raised {type(e).__name__} instead of a ValueError"
+            continue
+        f["C19:int-decode-accepts-invalid"] = f"base64_to_int({bad!r}) returned {r} instead of raising ValueError"
     return f
 
 
